@@ -201,7 +201,7 @@ func devMain(args []string) int {
 			for i, v := range hr.Violations {
 				dir := filepath.Join(os.TempDir(), fmt.Sprintf("vcheck-dev-replay-%d-%s-%d", os.Getpid(), hr.Name, i))
 				ok, out, err := replayViolation(relPkg(*pkg), v, dir, 60*time.Second)
-				fmt.Printf("replay %s %s: reproduced=%v err=%v\n%s\n", hr.Name, v.Kind, ok, err, tail(out, 12))
+				fmt.Printf("replay %s %s: reproduced=%v err=%v delays=%v\n%s\n", hr.Name, v.Kind, ok, err, v.Delays, tail(out, 12))
 				os.RemoveAll(dir)
 			}
 		}
